@@ -69,7 +69,7 @@ func ZZ_C20_DriverRun(sv *zzsv.T) {
 	src := zzDriverScripts[sv.Choice("script", len(zzDriverScripts))]
 	d := sv.Choice("document", len(zzDriverDocs))
 	noopt := sv.Choice("no-optimizer", 2) == 1
-	timeout := sv.Choice("timeout", 2) == 1
+	timeout := sv.Choice("timeout", 3) // none, a generous one, one that has expired before the script starts
 	sv.Note("script", src)
 	sv.Note("document", zzDriverDocs[d])
 	scriptFile := sv.File("script.in", src)
@@ -88,8 +88,11 @@ func ZZ_C20_DriverRun(sv *zzsv.T) {
 	if noopt {
 		args = append(args, "-no-optimizer")
 	}
-	if timeout {
+	if timeout == 1 {
 		args = append(args, "-timeout", "5s")
+	}
+	if timeout == 2 {
+		args = append(args, "-timeout", "1ns")
 	}
 	args = append(args, scriptFile)
 	// the driver, through its real flag definitions
@@ -137,6 +140,13 @@ func ZZ_C20_DriverRun(sv *zzsv.T) {
 	if err := e.Prepare(flags); err != nil {
 		sv.StdoutEnd()
 		sv.Assert("C20.driver.compile_error_reported", len(got) >= 16 && got[:16] == "Error compiling:")
+		return
+	}
+	if timeout == 2 {
+		// the deadline has passed: the script is not executed and the driver
+		// reports the failure (C09: an expired context prevents execution)
+		sv.StdoutEnd()
+		sv.Assert("C20.driver.timeout_reported", len(got) >= 21 && got[:21] == "Failed to run script:")
 		return
 	}
 	ret, err := e.Execute(obj)
